@@ -176,9 +176,12 @@ void cmb_process_priority_set(struct cmb_process *pp, const int64_t pri)
             const struct cmi_hashheap *hp = (struct cmi_hashheap *)rgp;
             /* Resource guard hashkeys are process addresses */
             const uint64_t key = (uint64_t)pp;
-            /* Do not change the other priority key, queue entry time */
-            const double etime = cmi_hashheap_dkey(hp, key);
-            cmi_hashheap_reprioritize(hp, key, etime, pri);
+            /* May already be on its way out of the queue, wakeup event scheduled */
+            if (cmi_hashheap_is_enqueued(hp, key)) {
+                /* Do not change the other priority key, queue entry time */
+                const double etime = cmi_hashheap_dkey(hp, key);
+                cmi_hashheap_reprioritize(hp, key, etime, pri);
+            }
         }
 
         ahead = ahead->next;
